@@ -55,6 +55,16 @@ theorem C04_one_image (E : Bytes → Bytes → Bytes) (s : State) (file : Bytes)
     fullRead E s file start offset (size : Int) = .ok (slice (fullImage s src N) offset size) :=
   fullRead_spec E s file start src N g r hr offset size hs h1 h2 h3
 
+/-- … and for EVERY offset and requested size (negative = "all", past the declared content, past the end of the file): the
+    slice of the one image for the clamped byte count, nothing when that count is not positive -/
+theorem C04_any_read (E : Bytes → Bytes → Bytes) (s : State) (file : Bytes) (start : Nat) (N : Nat)
+    (hg : readGeomB E s file start N = true) (r : Region) (hr : s.region? secFull = some r) (hN : r.size ≤ 0x200 * N)
+    (offset : Nat) (size : Int) :
+    fullRead E s file start offset size =
+      .ok (if clampFull r file start offset size ≤ 0 then []
+           else slice (fullImage s (secSrc E s file start) N) offset (clampFull r file start offset size).toNat) :=
+  fullRead_any E s file start (secSrc E s file start) N (readGeom_of_b E s file start N hg) r hr hN offset size
+
 /-- hence a read at (offset, length) equals the slice of one whole-image read -/
 theorem C04_consistent (E : Bytes → Bytes → Bytes) (s : State) (file : Bytes) (start : Nat) (src : Nat → Bytes) (N : Nat)
     (g : ReadGeom E s file start src N) (r : Region) (hr : s.region? secFull = some r) (hR : 0 < r.size)
